@@ -6,6 +6,7 @@ from . import values as V
 
 RLIMIT_BRANCH = 15_000_000      # z3 resource units per feasibility query (deterministic, not wall clock)
 RLIMIT_GOAL = 60_000_000       # per obligation
+SAFETY_TIMEOUT_MS = 30_000     # wall-clock cap per solver call (a query that hits it is 'unknown' = undecided)
 
 
 class Unsupported(Exception):
@@ -47,6 +48,7 @@ class Path(object):
         self.pc = []
         self.solver = z3.Solver()
         self.solver.set('rlimit', RLIMIT_BRANCH)
+        self.solver.set('timeout', SAFETY_TIMEOUT_MS)      # safety valve only; budgets are the rlimit values
         self.obligations = []
         self.steps = 0
         self.depth = 0
